@@ -19,7 +19,8 @@
  *   x? = () unset | (v);  times are (sec nsec);  chunks = list of write sizes (last one repeats;
  *   empty = one write);  flags bit0: stop after this header (the sink then refuses all output), bit1: set the pathname as a wide string made of the bytes' code points,
  *   bit2: do not write the body although size > 0, bit3: uname/gname/linknames via wide strings too,
- *   bit4: add a POSIX.1e access ACL with one named user, bit5: attach Mac OS metadata (321 bytes).
+ *   bit4: set rdev even when it is 0, bit5: attach Mac OS metadata (321 bytes), bit6: add a POSIX.1e access ACL with one
+ *   named user.
  * result = ( ( open ( (hdr err before after data finish)* ) close total ) bytes
  *            ( format filter ( rentry* ) final err ) )
  * rentry = ( status path? hardlink? symlink? uname? gname? mode uid gid size? mtime? atime? ctime?
@@ -136,7 +137,7 @@ static struct archive_entry *make_entry(val *d)
 		md[0] = 0x00; md[1] = 0x05; md[2] = 0x16; md[3] = 0x07;
 		archive_entry_copy_mac_metadata(e, md, sizeof(md));
 	}
-	if (flags & 16) {	/* a POSIX.1e access ACL with one named user */
+	if (flags & 64) {	/* a POSIX.1e access ACL with one named user */
 		archive_entry_acl_add_entry(e, ARCHIVE_ENTRY_ACL_TYPE_ACCESS, 7, ARCHIVE_ENTRY_ACL_USER_OBJ, -1, NULL);
 		archive_entry_acl_add_entry(e, ARCHIVE_ENTRY_ACL_TYPE_ACCESS, 4, ARCHIVE_ENTRY_ACL_USER, 77, "u77");
 		archive_entry_acl_add_entry(e, ARCHIVE_ENTRY_ACL_TYPE_ACCESS, 5, ARCHIVE_ENTRY_ACL_GROUP_OBJ, -1, NULL);
